@@ -96,6 +96,158 @@ def gen_history(rng, n):
     return evs
 
 
+# ---- deletion requests as real clients write them -------------------------------------------------------------------------
+# NIP-09 says what a relay must do with the e (and a) references of a kind-5 event; everything else a client puts next to them
+# is advisory: "k" tags naming the kinds of the targets, p tags, an alt text, relay hints and markers inside the e tags, and
+# whatever single-letter tag a client invents. The property does not depend on any of it: an own, older, e-referenced event goes
+# whatever the other tags say (present or not, right or wrong, in whatever order, repeated, unparsable), and nothing else goes.
+# Targets are of several different kinds at once, because that is when the advisory tags carry several values.
+CLIENT_KINDS = [1, 1, 1, 6, 7, 7, 4, 16, 1063, 1111, 9735, 30023, 30000, 0, 3, 10002, 40, 42, 1984, 9999, 10000, 40000, 65535]
+# values that are no kind number, or that only a lenient parser takes for one (blanks, sign, underscore, leading zeros, non-ASCII
+# digits), or that are out of the 16-bit range
+K_ODD = ["", " ", "abc", "-1", "+7", "1.0", "1e0", " 1", "7 ", "0x1", "1_0", "007", "\u0661", "65536", "4294967296", "99999999999999999999", "-0",
+             "1,7", "kind:1", "null"]
+LETTERS = "abcdfghijlmnoqrstuvwxyzABCDEKPQ"
+
+
+def k_tags(rng, target_kinds, style):
+    """the "k" tags of one deletion request; target_kinds = kinds of the referenced events (with repetitions)"""
+    distinct = sorted(set(target_kinds))
+    others = [k for k in (0, 1, 5, 6, 7, 1063, 9735, 30023, 65535) if k not in distinct]
+    if style == "none":
+        ks = []
+    elif style == "exact":                      # one per distinct kind
+        ks = list(distinct)
+    elif style == "per_target":                 # one per e tag: duplicates
+        ks = list(target_kinds)
+    elif style == "subset":                     # the client names only some of the kinds
+        ks = rng.sample(distinct, rng.randint(1, max(1, len(distinct) - 1)))
+    elif style == "wrong":                      # none of the named kinds is the kind of a target
+        ks = rng.sample(others, rng.randint(1, 3))
+    elif style == "superset":
+        ks = distinct + rng.sample(others, rng.randint(1, 3))
+    elif style == "garbage":                    # nothing parsable
+        ks = [rng.choice(K_ODD) for _ in range(rng.randint(1, 3))]
+    else:                                       # "mixed": right, wrong and unparsable values together
+        ks = distinct + rng.sample(others, rng.randint(0, 2)) + [rng.choice(K_ODD) for _ in range(rng.randint(1, 2))]
+    order = rng.choice(["asc", "desc", "shuffled", "as_is"])
+    if order == "asc":
+        ks.sort(key=lambda k: (not isinstance(k, int), k if isinstance(k, int) else 0))
+    elif order == "desc":
+        ks.sort(key=lambda k: (not isinstance(k, int), -k if isinstance(k, int) else 0))
+    elif order == "shuffled":
+        rng.shuffle(ks)
+    tags = []
+    for k in ks:
+        t = ["k", str(k) if isinstance(k, int) else k]
+        if rng.random() < 0.08:
+            t.append(rng.choice(["", "x", "1"]))    # a further item after the value
+        tags.append(t)
+    if style != "none" and rng.random() < 0.1:
+        tags.insert(rng.randrange(len(tags) + 1), ["k"])   # bare
+    return tags
+
+
+K_STYLES = ["none", "exact", "exact", "per_target", "subset", "wrong", "superset", "superset", "garbage", "mixed", "mixed"]
+
+
+def gen_client_history(rng, n_regular, n_deletions, report=None):
+    """regular events of many kinds by three authors, then (interleaved with a few more regular events) deletion requests whose
+    e references point at own events of several different kinds (also at foreign and unknown ones) and which carry the advisory
+    tags clients add. Sizes are generous on general grounds: up to 6 references of up to 6 distinct kinds and up to 8 k values per
+    request, so that anything that switches on "more than one / more than a few" values is reached."""
+    evs = []
+    t = T0
+
+    def regular():
+        nonlocal t
+        t += rng.choice([0, 1, 1, 2, 3])
+        k = rng.choice(CLIENT_KINDS)
+        tags = []
+        if 30000 <= k < 40000:
+            tags.append(["d", rng.choice(["x", "y", ""])])
+        prev = [x for x in evs if x["kind"] != 5]
+        if prev and rng.random() < 0.4:
+            o = rng.choice(prev)
+            tags.append(["e", o["id"]] + rng.choice([[], ["wss://r.example"], ["", "reply"]]))
+            tags.append(["p", o["pubkey"]])
+            if k in (6, 7, 16, 9735) and rng.random() < 0.5:
+                tags.append(["k", str(o["kind"])])          # reactions / reposts carry a k tag of their own (NIP-25 / NIP-18)
+        if rng.random() < 0.2:
+            tags.append(["t", rng.choice(["a", "ab", "nostr"])])
+        return {"id": gen.mkid(rng), "pubkey": rng.choice(AUTH), "created_at": t, "kind": k, "tags": tags,
+                "content": rng.choice(["", "hello", "+"]), "sig": "00" * 64}
+
+    for _ in range(n_regular):
+        evs.append(regular())
+    for _ in range(n_deletions):
+        if rng.random() < 0.35:
+            evs.append(regular())
+        stored = [x for x in evs if x["kind"] != 5]
+        who = rng.choice(stored)["pubkey"] if rng.random() < 0.85 else rng.choice(AUTH)
+        own = [x for x in stored if x["pubkey"] == who]
+        # references: own events chosen kind by kind first (so that a request with n references tends to span n kinds), then anything
+        want = rng.choice([1, 2, 2, 3, 3, 4, 5, 6])
+        by_kind = {}
+        for x in own:
+            by_kind.setdefault(x["kind"], []).append(x)
+        kinds_first = list(by_kind)
+        rng.shuffle(kinds_first)
+        targets = [rng.choice(by_kind[k]) for k in kinds_first[:want]]
+        while len(targets) < want and own and rng.random() < 0.7:
+            targets.append(rng.choice(own))
+        tags = []
+        for x in targets:
+            tags.append(["e", x["id"]] + rng.choice([[], [], ["wss://r.example"], ["", "mention"]]))
+        target_kinds = [x["kind"] for x in targets]
+        if rng.random() < 0.3:                  # somebody else's event among the references (its kind may or may not be named)
+            foreign = [x for x in stored if x["pubkey"] != who]
+            if foreign:
+                f = rng.choice(foreign)
+                tags.append(["e", f["id"]])
+                if rng.random() < 0.5:
+                    target_kinds.append(f["kind"])
+        if rng.random() < 0.15:
+            tags.append(["e", gen.mkid(rng)])   # never seen
+        style = rng.choice(K_STYLES)
+        if not target_kinds and style in ("exact", "per_target", "subset"):
+            style = "wrong"
+        ktags = k_tags(rng, target_kinds, style)
+        extra = []
+        if rng.random() < 0.35:
+            for x in rng.sample(stored, min(len(stored), rng.choice([1, 2]))):
+                a = address(x)
+                if a is not None:
+                    extra.append(["a", "%d:%s:%s" % (a[1], a[0], a[2] or "")])
+        if rng.random() < 0.3:
+            extra.append(["p", rng.choice(stored)["pubkey"]])
+        if rng.random() < 0.3:
+            extra.append(["alt", "deletion request"])
+        for _ in range(rng.choice([0, 0, 0, 1, 2])):
+            # any other single-letter tag, with values that look like kinds, ids, keys or words
+            v = rng.choice([str(rng.choice(CLIENT_KINDS)), rng.choice(stored)["id"], who, "x", ""])
+            extra.append([rng.choice(LETTERS), v])
+        layout = rng.choice(["e_k_rest", "k_first", "shuffled", "shuffled"])
+        if layout == "e_k_rest":
+            tags = tags + ktags + extra
+        elif layout == "k_first":
+            tags = ktags + tags + extra
+        else:
+            tags = tags + ktags + extra
+            rng.shuffle(tags)
+        newest = max([x["created_at"] for x in targets] or [t])
+        # mostly after every target; sometimes in between, so that some references are not older than the request
+        when = newest + rng.choice([1, 1, 2, 5, 100]) if rng.random() < 0.85 else rng.choice([x["created_at"] for x in targets] or [t]) + rng.choice([0, 1])
+        evs.append({"id": gen.mkid(rng), "pubkey": who, "created_at": when, "kind": 5, "tags": tags,
+                    "content": rng.choice(["", "posted by accident"]), "sig": "00" * 64})
+        if report is not None:
+            report.count("client_deletions_k_" + style)
+            report.count("client_deletions_target_kinds_%d" % min(len({x["kind"] for x in targets}), 4))
+            nk = len({tg[1] for tg in ktags if len(tg) > 1 and tg[1].isascii() and tg[1].isdigit() and int(tg[1]) < 65536})
+            report.count("client_deletions_distinct_valid_k_%s" % (nk if nk < 3 else "3+"))
+    return evs
+
+
 def run_history(report, drv, store, evs, tag):
     store.reset()
     lines = [{"op": "kv.reset"}] if store.backend == "kv" else [{"op": "sql.reset"}]
@@ -198,7 +350,12 @@ def run(report, tier, seed):
         "deletions referencing own / foreign / unknown / several / malformed ('zz', bare e tag, upper-case hex) ids, "
         "created -1/0/+1/+2/+100 s relative to the target, events published under a NIP-26 delegation tag and deletions signed by "
         "the delegator (who is not the author), in generated arrival order, on both backends; non-trivial = "
-        "the history contains a deletion")
+        "the history contains a deletion; "
+        "client-shaped deletion requests: 4-12 regular events of ~20 kinds (regular, replaceable, addressable) by 3 authors, then 1-4 "
+        "kind-5 events with 1-6 e references (relay hints / markers) to own events of up to 6 different kinds, foreign and unknown ids, "
+        "and advisory tags: NIP-09 k tags (none / exactly the target kinds / one per target / a subset / only wrong kinds / a superset / "
+        "unparsable / mixed; ascending, descending, shuffled; bare; extra items), a coordinates, p, alt, arbitrary single-letter tags, "
+        "in e-k-rest, k-first or shuffled layout, created after all / between the targets")
     report.assumptions += ["validators disabled (synthetic unsigned events)"]
     try:
         for e in report.known:
@@ -210,6 +367,12 @@ def run(report, tier, seed):
             evs = gen_history(rng, rng.randint(3, 10))
             for st in stores:
                 run_history(report, drv, st, evs, i)
+        # deletion requests with the advisory tags of real clients (k, a, p, alt, single letters) over targets of several kinds
+        for i in range(70 if tier == "quick" else 1500):
+            evs = gen_client_history(rng, rng.randint(4, 12), rng.randint(1, 4), report)
+            for st in stores:
+                run_history(report, drv, st, evs, "client:%d" % i)
+            report.count("client_histories")
     finally:
         for st in stores:
             st.close()
